@@ -427,6 +427,11 @@ class Program:
     # ------------------------------------------------------------------ helpers
     def func(self, qualname: str) -> FuncInfo:
         fi = self.functions.get(qualname)
+        if fi is None and "." in qualname:
+            # a method moved to a base class is still the method of the class (resolved along the MRO)
+            c, _, m = qualname.partition(".")
+            if c in self.classes and "." not in m:
+                fi = self.lookup_method(c, m)
         if fi is None:
             raise AnalysisError(f"anchor function {qualname} not found in the source tree")
         return fi
